@@ -4,7 +4,7 @@ import RbV.Ref.SAUnique
 import RbV.Model.Kasai
 import RbV.Model.Sus
 import RbV.Model.Transform
-import RbV.Model.SampledSA
+import RbV.Model.SampledGet
 import RbV.Model.LFMulti
 import RbV.Model.PosTypes
 /-!
